@@ -323,6 +323,12 @@ def _typed_default_task(srv, item):
             r = res[0]
             got = _pv(r['dump'], 't') if r.get('status') == 'ok' and r.get('rc') == 0 else ('%s rc=%s' % (r.get('status'), r.get('rc')))
             out.append((st, text, 'rejected, default %r stays (%s)' % (dval, order), got, got == dval))
+        # no default at all: nothing is in force, the setting must read as zero - not as whatever the bytes of the rejected text happen to be
+        zero = repr(0.0) if st == 3 else 0
+        h, res = srv.expand([C.load(f)], [C.reg_string('t', None, st)])
+        r = res[0]
+        got = _pv(r['dump'], 't') if r.get('status') == 'ok' and r.get('rc') == 0 else ('%s rc=%s' % (r.get('status'), r.get('rc')))
+        out.append((st, text, 'rejected, no default: %r (loaded, then registered)' % (zero,), got, got == zero))
     return out
 
 
